@@ -335,6 +335,12 @@ def fam_product(rec, rng):
         answers.append(('flip_final_of_unreachable_state', fa.make(P[0], P[1], P[2], P[3], set(P[4]) ^ {u})))
         T2 = [(p, a, (rng.choice(P[0]) if p == u else q)) for (p, a, q) in P[2]]
         answers.append(('retarget_moves_of_unreachable_state', fa.make(P[0], P[1], T2, P[3], P[4])))
+    # an extra, unreachable, non-accepting state whose label LOOKS like a product state but whose components come
+    # from the wrong operand / from one operand only
+    for comp in ((R2[0][0], R1[0][0]), (R1[0][0], R1[0][-1]), (R2[0][0], R2[0][-1])):
+        bad = '(%s,%s)' % comp
+        if bad not in P[0] and not (comp[0] in R1[0] and comp[1] in R2[0]):
+            answers.append(('extra_state_with_wrong_side_components', fa.make(list(P[0]) + [bad], P[1], list(P[2]) + [(bad, a, P[3]) for a in P[1]], P[3], P[4])))
     Pd = {(p, a): q for (p, a, q) in P[2]}
     for (nm, A) in answers:
         if not (fa.well_formed(A) and fa.is_total_dfa(A)):
@@ -711,11 +717,11 @@ def fam_derivation(rec, rng):
     import gambatools.notebook_cfg as ng
     import gambatools.cfg_algorithms as ca
     from vt.props.c15 import check_derivation
-    RG = exercises.cnf_grammar(rng, 4)
+    RG = exercises.cnf_grammar(rng, 4) if rng.random() < 0.5 else cfgg.redundant_cnf(rng)
     L = sorted(cf.language_upto(RG, 5) - {''})
     if not L:
         return
-    w = rng.choice(L)
+    w = rng.choice(L[-8:]) if rng.random() < 0.6 else rng.choice(L)
     t0 = txt.render_simple_cfg(RG, 'ε', rng)
     G = adapt.build_cfg(RG)
     ders = {}
@@ -737,6 +743,12 @@ def fam_derivation(rec, rng):
             if len(base) > 3:
                 j = rng.randrange(1, len(base) - 2)
                 answers.append(('swap_steps', base[:j] + [base[j + 1], base[j]] + base[j + 2:]))
+        # derivations that rewrite the variables of one derivation tree in other orders (valid for 'any', usually not
+        # leftmost / rightmost), classified by the independent validator
+        tree = cf.parse_tree(RG, w, rng)
+        if tree is not None:
+            for order in ('leftmost', 'rightmost', 'random', 'random', 'random'):
+                answers.append(('tree_linearised_' + order, cf.linearize(tree, order, rng)))
         answers.append(('wrong_last_form', base[:-1] + [list(w[::-1])] if w != w[::-1] else base[:-1] + [list(w) + [w[0]]]))
         answers.append(('no_start', base[1:]))
         answers.append(('duplicate_step', base[:1] + base))
